@@ -63,11 +63,20 @@ func invalidObjectName(name string) error {
 // itself is the directory of other keys ("a" while "a/b" exists), or one of its
 // parent directories is an object ("a/b" while "a" exists). Not every afero.Fs
 // refuses these on its own: on afero.MemMapFs the rename or MkdirAll succeeds
-// and silently destroys the other keys.
+// and silently destroys the other keys. A directory below which nothing is
+// stored is no key's directory; it is removed.
 func keyConflict(fs afero.Fs, root, name string) (bool, error) {
-	stat, err := fs.Stat(filepath.FromSlash(path.Join(root, name)))
+	full := filepath.FromSlash(path.Join(root, name))
+	stat, err := fs.Stat(full)
 	if err == nil && stat.IsDir() {
-		return true, nil
+		if holdsObject(fs, full) {
+			return true, nil
+		}
+		// No key lives below it: the directory is what a delete that could
+		// not remove it left behind, and must not keep the key from being stored.
+		if err := removeAll(fs, full); err != nil {
+			return false, err
+		}
 	} else if err != nil && !isNotExist(err) {
 		return false, err
 	}
